@@ -83,13 +83,15 @@ def from_data_unit(with_ghost):
             made = []
 
             def field_class(rank):
-                def make(g):
+                def make(g, dtype=None):
                     f = Instance(None, {"rank": rank, "grid": g}, name=f"field_rank{rank}")
                     made.append(f)
                     return f
                 return Instance(None, {"__call__": make}, name=f"FieldClass{rank}")
 
             it.builtins["issubclass"] = lambda a, b: True
+            # number_array: an array of equal content and, when no conversion is needed, the very same array
+            it.stub_names["number_array"] = lambda data, dtype=None, copy=None: data
             total = sum(dim**r for r in (0, 1, 2, 0))
             data = sym_array("data", (total, n))
             built = []
